@@ -153,6 +153,25 @@ KINDS = {
     },
 }
 
+# longer lists over a small alphabet: alternative lists overlap, submissions may be shorter or longer than expected
+KINDS['SingleListLong'] = {
+    'cls': 'SingleListGrader', 'opts': KINDS['SingleList']['opts'],
+    'universe': _u(([['a', 'b', 'c', 'd'], 'a,b,c,d'], ['a,b,c,d', 'a, b ,c,d'], 'ov'),
+                   ([['e', 'f', 'g', 'h'], 'e,f,g,h'], ['e,f,g,h'], 'ov'),
+                   ([['a', 'b', 'e', 'f']], ['a,b,e,f'], 'ov'),
+                   ([['a', 'c', 'e', 'g'], 'a,c,e,g'], ['a,c,e,g'], 'ov'),
+                   ([['b', 'd', 'f', 'h']], ['b,d,f,h'], 'ov'),
+                   ([['e', 'f', 'a', 'h']], ['e,f,a,h'], 'ov'),
+                   ([['i', 'j', 'k', 'l'], 'i,j,k,l'], ['i,j,k,l'], 'ov')),
+    'outsiders': ['w,x,y,z', 'y,z'], 'raising': ['a,,b', ''],
+    'letters': 'abcdefghij',
+}
+
+
+def is_slg(kind):
+    return KINDS[kind]['cls'] == 'SingleListGrader'
+
+
 CREDITS = [1, 0.5, 0.5, 0, 0.25, 1.0, 0.75, 0.0, 0.1, 0.3]
 MSGS = [None, None, '', 'ok', 'no', 'good', 'nice', 'well done', 'très bien', 'x', '\U0001d6d1!', 'partial credit here',
         'hint', 'almost', 'ok  ', 'yes', ' ']
@@ -183,7 +202,7 @@ def input_spellings(kind, oi, k):
     u = KINDS[kind]['universe'][k]
     if kind == 'String' and KINDS[kind]['opts'][oi].get('case_sensitive') is False:
         return u['inputs'] + [s.upper() for s in u['inputs'][:1]]
-    if kind == 'SingleList' and not KINDS[kind]['opts'][oi].get('ordered'):
+    if is_slg(kind) and not KINDS[kind]['opts'][oi].get('ordered'):
         extra = []
         for s in u['inputs'][:1]:
             parts = s.split(',')
@@ -226,11 +245,11 @@ def gen_case(rng, kind, tier):
             if rng.random() < 0.7:
                 alts[j]['msg'] = rng.choice(MSGS[3:])
     inputs = []
-    if kind == 'SingleList' and rng.random() < 0.6:
+    if is_slg(kind) and rng.random() < 0.6:
         # a tuple whose earlier value the input matches only partly and whose later value it matches fully
         U = K['universe']
         items = lambda k: {x.strip() for x in U[k]['alts'][0]}
-        pairs = [(p, q) for p in range(nU) for q in range(nU) if p != q and len(items(p) & items(q)) == 1]
+        pairs = [(p, q) for p in range(nU) for q in range(nU) if p != q and 0 < len(items(p) & items(q)) < len(items(p))]
         p, q = rng.choice(pairs)
         ks = [p, q] + ([rng.choice(range(nU))] if rng.random() < 0.3 else [])
         a = {'form': rng.choice(['dict', 'dict', 'bare']), 'tuple': True, 'classes': ks,
@@ -251,6 +270,22 @@ def gen_case(rng, kind, tier):
     inputs.append({'text': rng.choice(K['outsiders']), 'cls': None})
     if K.get('partial') and rng.random() < 0.8:
         inputs.append({'text': rng.choice(K['partial']), 'cls': 'partial'})
+    if K.get('letters'):
+        # submissions with fewer / as many / more entries than the expected lists, overlapping several of them
+        for _ in range(4):
+            m = rng.choice([1, 2, 2, 3, 3, 4, 5, 6])
+            if rng.random() < 0.6 and used:
+                # mostly drawn from one listed alternative, so that alternatives earn different amounts
+                base = [x.strip() for x in K['universe'][rng.choice(used)]['alts'][0]]
+                rest = [c for c in K['letters'] if c not in base]
+                rng.shuffle(base)
+                rng.shuffle(rest)
+                t = rng.randint(max(1, m - 2), m)
+                picks = (base[:t] + rest)[:m]
+                rng.shuffle(picks)
+            else:
+                picks = rng.sample(K['letters'], m)
+            inputs.append({'text': rng.choice([',', ', ']).join(picks), 'cls': 'partial'})
     if K['raising'] and rng.random() < 0.25:
         inputs.append({'text': rng.choice(K['raising']), 'cls': 'raising'})
     if kind == 'Matrix' and oi != 0:
@@ -402,11 +437,11 @@ def direct_earned(case, inp):
                 return None                 # a matrix literal as input is refused by the parser (max_array_dim=1)
         elif tags != {'v2'}:
             return None
-    if kind == 'SingleList':
+    if is_slg(kind):
         U = KINDS[kind]['universe']
         if any(U[c]['tag'] == 'ov' for a in case['alts'] for c in a['classes']) or (k is not None and U[k]['tag'] == 'ov'):
             return None
-    if kind == 'SingleList' and KINDS[kind]['opts'][case['oi']].get('ordered'):
+    if is_slg(kind) and KINDS[kind]['opts'][case['oi']].get('ordered'):
         # listed order matters: only spellings in the class's own order match fully
         if k is not None and [p.strip() for p in inp['text'].split(',')] != [p.strip() for p in KINDS[kind]['universe'][k]['alts'][0]]:
             return None
@@ -667,7 +702,7 @@ def raw_term(case, perm, shuffles, ids):
     cnt = ids.counter()
 
     def raw_leaves(v):
-        if kind == 'SingleList' and isinstance(v, str):
+        if is_slg(kind) and isinstance(v, str):
             return leaves(v.split(','))
         return leaves(v)
     items = []
@@ -1123,11 +1158,11 @@ def run(ctx):
     terms = []
     POOL.__init__()
     try:
-        plan = {'String': 46, 'Formula': 9, 'Numerical': 12, 'Matrix': 8, 'SingleList': 14}
+        plan = {'String': 46, 'Formula': 9, 'Numerical': 12, 'Matrix': 8, 'SingleList': 12, 'SingleListLong': 12}
         if escalate:
             plan = {k: int(v * 1.6) for k, v in plan.items()}
         if thorough:
-            plan = {'String': 700, 'Formula': 90, 'Numerical': 130, 'Matrix': 70, 'SingleList': 180}
+            plan = {'String': 700, 'Formula': 90, 'Numerical': 130, 'Matrix': 70, 'SingleList': 150, 'SingleListLong': 150}
         perm_budget = 24 if not thorough else 720
         cases = [(c, True) for c in corpus_cases()]
         for kind, n in plan.items():
